@@ -1,4 +1,4 @@
 CONSTANTS N = 2
-K = 4
+K = 5
 SPECIFICATION Spec
 INVARIANT EvenRank
